@@ -324,6 +324,13 @@ def run_case(case):
                     ref2 = np.fft.fft2(img, axes=(0, 1))
                     res.check(X2.shape == ref2.shape and np.max(np.abs(X2 - ref2)) <= 1e-9 * max(1.0, np.max(np.abs(ref2))),
                               "dft2", f"dft2 != fft2 on a regular {nk}x{nl} grid", counter="dft_checked")
+                    # another number of output coefficients than grid points (fewer: the first ones; more: the spectrum repeats with the grid's period):
+                    # coefficient (k, l) of the explicit transform is FFT coefficient (k mod nk, l mod nl)
+                    ok_, ol_ = int(rng.integers(1, 2 * nk + 2)), int(rng.integers(1, 2 * nl + 2))
+                    X3 = F.dft2(x, r, c, ok_, ol_)
+                    ref3 = ref2[np.arange(ok_) % nk][:, np.arange(ol_) % nl]
+                    res.check(X3.shape == ref3.shape and np.max(np.abs(X3 - ref3)) <= 1e-8 * max(1.0, np.max(np.abs(ref2))),
+                              "dft2:output-size", f"dft2 with {ok_}x{ol_} output coefficients on a regular {nk}x{nl} grid != the matching fft2 coefficients", counter="dft_scales_checked")
                 except Exception as e:
                     res.exception("dft2:exception", e, f"{nk}x{nl}")
                 nt += 1
